@@ -574,8 +574,7 @@ func Same(s, t []complex128) bool {
 		return false
 	}
 	for i, v := range s {
-		w := t[i]
-		if v != w && !(cmplx.IsNaN(v) && cmplx.IsNaN(w)) {
+		if !cscalar.Same(v, t[i]) {
 			return false
 		}
 	}
